@@ -1,6 +1,7 @@
 package props
 
 import (
+	"sort"
 	"bytes"
 	"fmt"
 	"hash/fnv"
@@ -127,6 +128,54 @@ func runNAS(ctx *Ctx, prop string) {
 							}
 							add(pair, map[int]int{i: n}, 1, 2, nil, fmt.Sprintf("IE %d len %d with IE %d", i, n, j))
 						}
+					}
+				}
+			}
+		}
+		// a sweep of the length of one variable-length IE across the 256 mark (thorough: 0..600) while EVERY other single IE
+		// is present in front of it or behind it (a width that wraps in an 8-bit intermediate shows only for a residue)
+		sweepLo, sweepHi := 236, 276
+		if ctx.Thorough {
+			sweepLo, sweepHi = 0, 600
+		}
+		for i, e := range t.Optional {
+			if e.Fmt != "TLV-E" && e.Fmt != "TLV" || e.Fixed || e.Fixed1 {
+				continue
+			}
+			for n := sweepLo; n <= sweepHi; n++ {
+				if (e.Fmt == "TLV" && n > 255) || (e.Cap > 0 && n > e.Cap) {
+					continue
+				}
+				for j := 0; j < k; j++ {
+					if j == i {
+						continue
+					}
+					pair := []int{i, j}
+					if j < i {
+						pair = []int{j, i}
+					}
+					add(pair, map[int]int{i: n}, 2, 1, nil, fmt.Sprintf("IE %d len %d (sweep) with IE %d", i, n, j))
+				}
+			}
+		}
+		// three IEs in every wire order with one of them 256 / 300 octets long (a length that needs the second octet of a
+		// two-octet indicator, in front of IEs with one-octet indicators)
+		for i, e := range t.Optional {
+			if e.Fmt != "TLV-E" || e.Fixed || (e.Cap > 0 && e.Cap < 300) {
+				continue
+			}
+			for a := 0; a < k; a++ {
+				for b := a + 1; b < k; b++ {
+					if a == i || b == i {
+						continue
+					}
+					three := []int{i, a, b}
+					sort.Ints(three)
+					for _, n := range []int{256, 300} {
+						n := n
+						permute(3, func(p []int) {
+							add(three, map[int]int{i: n}, 1, 0, append([]int{}, p...), fmt.Sprintf("IEs %v (IE %d len %d) in wire order %v", three, i, n, p))
+						})
 					}
 				}
 			}
